@@ -45,22 +45,15 @@ Theorem C13_reverse_involutive_partial :
 Proof. exact reverse_twice_apply. Qed.
 Print Assumptions C13_reverse_involutive_partial.
 
-(* Full-strength statement of composition:
-     forall A B C well-formed, apply (merge (diff A B) (diff B C)) A = Ok C      (default flags included).
-   It is FALSE of libyang (the model is faithful: the correspondence run prints the same trees): when diff(A,B)
-   creates a non-presence container and diff(B,C) only turns the leaves below it into default nodes,
-   lyd_diff_merge_none() updates the flag of the leaf in the created subtree but not the flag of the created
-   containers, and the merged diff creates them as explicit nodes.  Witness: w_A, w_B, w_C in DiffMergeP.v
-   (finding merge-npcont-dflt). *)
-Theorem C13_merge_apply_refuted :
-  exists sch fa fb fc, wfb sch fa = true /\ wfb sch fb = true /\ wfb sch fc = true /\
-  exists d1 d2 m r, diff sch true fa fb = Ok d1 /\ diff sch true fb fc = Ok d2 /\
-                    merge sch false (map redup d1) d2 = Ok m /\ apply sch m fa = Ok r /\ r <> fc.
-Proof.
-  exists w_sch, w_A, w_B, w_C. destruct merge_apply_witness as [H1 [H2 [H3 [d1 [d2 [m [E1 [E2 [E3 [E4 E5]]]]]]]]]].
-  repeat split; try assumption. exists d1, d2, m, w_C_got. repeat split; assumption.
-Qed.
-Print Assumptions C13_merge_apply_refuted.
+(* Regression case of the former finding merge-npcont-dflt (libyang fix 2dd55cd, model updated with it): diff(A,B)
+   creates a subtree with a non-presence container, diff(B,C) only turns the leaf below it into a default node;
+   lyd_diff_merge_dflt_flag() now also sets the default flag of the created container and the merged diff applied to A
+   gives C exactly. *)
+Example C13_merge_apply_regression :
+  wfb w_sch w_A = true /\ wfb w_sch w_B = true /\ wfb w_sch w_C = true /\
+  exists d1 d2 m, diff w_sch true w_A w_B = Ok d1 /\ diff w_sch true w_B w_C = Ok d2 /\
+                  merge w_sch false (map redup d1) d2 = Ok m /\ apply w_sch m w_A = Ok w_C.
+Proof. exact merge_apply_regression. Qed.
 
 (* the hypotheses of the reverse theorems are satisfiable by a non-trivial pair (the example of C06) *)
 Example C13_reverse_example :
@@ -85,10 +78,10 @@ Theorem C13_merge_undo :
 Proof. intros sch mdflt fa fb H. exact (merge_undo sch mdflt H fa fb). Qed.
 Print Assumptions C13_merge_undo.
 
-(* The composition law in the case it is proved for: C = A (the second diff undoes the first).  Missing for the full
-   statement: a proof for arbitrary C - refuted as stated above (C13_merge_apply_refuted: default flag of created
-   non-presence containers); the other cells of the merge table are tied to libyang by the correspondence run and
-   checked on the implementation by dump equality (tools/props/comps_difftree.py), not proved. *)
+(* The composition law  apply (merge (diff A B) (diff B C)) A = Ok C  in the case it is proved for: C = A (the second
+   diff undoes the first).  Missing for the full statement: a proof for arbitrary C (no counterexample is known since
+   2dd55cd: the model agrees with libyang on every cell of the merge table in the correspondence run and the law is
+   checked on the implementation by dump equality on every generated triple, tools/props/comps_difftree.py). *)
 Theorem C13_merge_apply_partial :
   forall sch mdflt fa fb, schema_nouo sch = true -> wfb sch fa = true -> wfb sch fb = true ->
   exists d1 d2 m, diff sch true fa fb = Ok d1 /\ diff sch true fb fa = Ok d2 /\
